@@ -162,8 +162,20 @@ pub fn resolve_encoding<'encoding>(
                 }
             }
             
-            report.message(
-                diagn::Message::fuse_topmost(msgs));
+            // Matches can also be left unresolved without
+            // a failed constraint to report, e.g. when their
+            // arguments are still unknown in the last iteration
+            if msgs.is_empty()
+            {
+                report.error_span(
+                    "failed to resolve instruction",
+                    instr_span);
+            }
+            else
+            {
+                report.message(
+                    diagn::Message::fuse_topmost(msgs));
+            }
         }
 
         return Ok(None);
